@@ -24,6 +24,41 @@ package jws
 //@     jwsOK(compact) && signInputOK(jwsHeaders(compact), jwsPayload(compact)) &&
 //@     verifyPrim(key, jwsSig(compact), signInput(jwsHeaders(compact), jwsPayload(compact))) }
 //
+// ---- C09: the compact form is taken apart exactly one way ----
+// three dot-separated segments; header = JSON object decoded from the WHOLE first segment (no trailing data) that names
+// an algorithm; payload = second segment (or the detached payload), non-empty; signature = third segment, non-empty
+// a JOSE header: the whole input must be one JSON object (the go-jose json.Unmarshal rejects trailing data, duplicate
+// and case-mismatched members); decoding is a function of the bytes (assumed)
+//@ spec hdrJSONOK(data bytes) bool
+//@ spec hdrJSONOf(data bytes) jws.Headers
+//@ extern github.com/square/go-jose/v3/json.Unmarshal
+//@   params data, v
+//@   results err
+//@   ensures isType(v, "*jws.Headers") ==> (err == nil) == hdrJSONOK(data)
+//@   ensures err == nil && isType(v, "*jws.Headers") ==> deref(unbox(v, "*jws.Headers")) == hdrJSONOf(data)
+//@ func checkJWSHeaders
+//@   ensures (result == nil) == ("alg" in headers)
+//@ func parseCompactedHeaders
+//@   requires len(parts) == 3
+//@   results h, err
+//@   ensures (err == nil) == (rawOK(parts[0]) && hdrJSONOK(rawDec(parts[0])) && "alg" in hdrJSONOf(rawDec(parts[0])))
+//@   ensures err == nil ==> h == hdrJSONOf(rawDec(parts[0]))
+//@ func parseCompactedPayload
+//@   requires opts != nil
+//@   results p, err
+//@   ensures len(opts.detachedPayload) > 0 ==> err == nil && p == opts.detachedPayload
+//@   ensures len(opts.detachedPayload) == 0 ==> (err == nil) == (rawOK(jwsPayload) && len(rawDec(jwsPayload)) > 0)
+//@   ensures len(opts.detachedPayload) == 0 && err == nil ==> p == rawDec(jwsPayload)
+//@ func parseCompacted
+//@   requires opts != nil
+//@   results sig, err
+//@   ensures err == nil ==> len(strSplit(jwsCompact, ".")) == 3 && sig != nil && fresh(sig)
+//@   ensures err == nil ==> sig.ProtectedHeaders == hdrJSONOf(rawDec(strSplit(jwsCompact, ".")[0])) && sig.joseHeaders == sig.ProtectedHeaders && "alg" in sig.ProtectedHeaders
+//@   ensures err == nil ==> rawOK(strSplit(jwsCompact, ".")[2]) && sig.signature == rawDec(strSplit(jwsCompact, ".")[2]) && len(sig.signature) > 0
+//@   ensures err == nil && len(opts.detachedPayload) == 0 ==> sig.Payload == rawDec(strSplit(jwsCompact, ".")[1]) && len(sig.Payload) > 0
+//@   ensures err == nil && len(opts.detachedPayload) > 0 ==> sig.Payload == opts.detachedPayload
+//@   ensures len(strSplit(jwsCompact, ".")) != 3 ==> err != nil
+//
 //@ func ParseJWS
 //@   trusted
 //@   results sig, err
